@@ -18,3 +18,24 @@ def c10_exp_overflow(case):
     if -math.log(v) > 709.782712893384:
         return True
     return abs(u) / v >= 2.0 ** 1022 if u == u else False
+
+
+def c07_subnormal_quotient(case, desc=None):
+    """PolyK::indefinite (or the Segment variant) with a coefficient c_i, i >= 1, whose quotient c_i/(i+1) is non-zero and
+    below 2^-1022 in magnitude: the quotient is rounded on the subnormal grid (absolute error up to 2^-1075), so multiplying
+    back by i+1 can be several units in the last place away from c_i.  Only the round-trip clause is covered."""
+    if case.get("op") != "k":
+        return False
+    name = case.get("name", "")
+    if not name.endswith("::indefinite") or "Log" in name:
+        return False
+    if desc is not None and "derivative(indefinite)" not in desc:
+        return False
+    args = case["args"]
+    off = 1 if name.startswith("Segment<") else 0
+    cs = [C.fl(b) for b in args[off:]]
+    for i in range(1, len(cs)):
+        q = abs(cs[i]) / (i + 1)
+        if cs[i] == cs[i] and 0 < q < 2.0 ** -1022:
+            return True
+    return False
